@@ -40,6 +40,10 @@ from common import run_driver, REPO  # noqa: E402  (also puts PY65_REPO on sys.p
 ID = 'C15'
 LEAN_MODULES = ['Py65.Props.C15', 'Py65.Proofs.AddrParserGenEq', 'Py65.Props.C15g']
 NAMESPACES = ['Py65.Props.C15', 'Py65.Proofs.AddrParserGenEq', 'Py65.Props.C15g']
+# library helpers (CPython behaviour modelled in lean/Py65/Model/*Rt*.lean ...) that the generated code of these
+# modules calls, derived by scanning the Lean sources (harness/rtscan.py); validated against CPython on every run
+import rtcheck  # noqa: E402
+RT_HELPERS = rtcheck.helpers_for(LEAN_MODULES)
 LEVEL = 'proof'
 USES_GEN = False
 EXPECTED_THEOREMS = [
